@@ -497,6 +497,11 @@ pub fn fai_file(rng: &mut Rng) -> Vec<u8> {
 
 pub fn crai_file(rng: &mut Rng) -> Vec<u8> {
     let n = rng.range(0, 6);
+    crai_file_n(rng, n)
+}
+
+/// a .crai with n records written by crai::io::Writer (gzip, default level)
+pub fn crai_file_n(rng: &mut Rng, n: u64) -> Vec<u8> {
     let mut off = 26u64;
     let recs: Vec<cram::crai::Record> = (0..n)
         .map(|_| {
@@ -519,4 +524,63 @@ pub fn crai_file(rng: &mut Rng) -> Vec<u8> {
     let mut w = cram::crai::io::Writer::new(Vec::new());
     w.write_index(&recs).unwrap();
     w.finish().unwrap()
+}
+
+/// the fields of a hand-assembled gzip member (RFC 1952) around a text
+pub struct GzOpts {
+    pub extra: Option<Vec<u8>>,
+    pub name: Option<Vec<u8>>,
+    pub comment: Option<Vec<u8>>,
+    pub hcrc: bool,
+    pub ftext: bool,
+    pub level: u32,
+    pub mtime: u32,
+    pub xfl: u8,
+    pub os: u8,
+    pub garbage: Vec<u8>,
+}
+
+/// header (ID1 ID2 CM FLG MTIME XFL OS [XLEN extra] [name NUL] [comment NUL] [CRC16]) ++ raw DEFLATE
+/// stream of flate2's compressor at `level` (0 = stored blocks) ++ CRC32 ++ ISIZE ++ garbage
+pub fn gz_member(text: &[u8], o: &GzOpts) -> Vec<u8> {
+    use std::io::Write as _;
+    let flg = (o.ftext as u8) | (o.hcrc as u8) << 1 | (o.extra.is_some() as u8) << 2 | (o.name.is_some() as u8) << 3 | (o.comment.is_some() as u8) << 4;
+    let mut out = vec![0x1f, 0x8b, 8, flg];
+    out.extend_from_slice(&o.mtime.to_le_bytes());
+    out.push(o.xfl);
+    out.push(o.os);
+    if let Some(e) = &o.extra {
+        out.extend_from_slice(&(e.len() as u16).to_le_bytes());
+        out.extend_from_slice(e);
+    }
+    for f in [&o.name, &o.comment].into_iter().flatten() {
+        out.extend(f.iter().map(|b| if *b == 0 { b'x' } else { *b }));
+        out.push(0);
+    }
+    if o.hcrc {
+        let mut c = flate2::Crc::new();
+        c.update(&out);
+        out.extend_from_slice(&((c.sum() & 0xffff) as u16).to_le_bytes());
+    }
+    let mut e = flate2::write::DeflateEncoder::new(Vec::new(), flate2::Compression::new(o.level));
+    e.write_all(text).unwrap();
+    out.extend_from_slice(&e.finish().unwrap());
+    let mut c = flate2::Crc::new();
+    c.update(text);
+    out.extend_from_slice(&c.sum().to_le_bytes());
+    out.extend_from_slice(&(text.len() as u32).to_le_bytes());
+    out.extend_from_slice(&o.garbage);
+    out
+}
+
+/// number of bytes flate2's single-member gzip decoder consumes from `file` (None: not a member)
+pub fn gz_member_len(file: &[u8]) -> Option<usize> {
+    use std::io::Read as _;
+    let mut cur = std::io::Cursor::new(file);
+    let mut text = Vec::new();
+    {
+        let mut d = flate2::bufread::GzDecoder::new(&mut cur);
+        d.read_to_end(&mut text).ok()?;
+    }
+    Some(cur.position() as usize)
 }
